@@ -24,7 +24,7 @@ CLAIMS = {
    "DESIGN.md section 8.8"),
  "C06": ("other",
    "call-graph reachability with gated call sites removed (VTA), dominance on go/ssa, inter-procedural command-provenance evaluation against a read-only allow-list",
-   "Structural clause set of the property decided on every run from /repo's source: every call path to an ApplyCommands implementation passes the GetErrUnmanaged gate; the gate returns what the marker checks recorded; hostname/marker/HA checks dominate every successful load; the optional banner is nil-safe; every command that can be sent outside the apply region is allow-listed read-only. 'other' rather than 'proof' because one genuine defect (Linux marker finding never reaches the gate) is pinned by the unedited test-suite and recorded as a known finding.",
+   "Structural clause set of the property decided on every run from /repo's source: every call path to an ApplyCommands implementation passes the GetErrUnmanaged gate; the gate returns what the marker checks recorded; hostname/marker/HA checks dominate every successful load; the configuration the checks consult is the loaded one or a whole copy of it (never a field-by-field copy that drops the banner pattern); the optional banner is nil-safe; every command that can be sent outside the apply region is allow-listed read-only. 'other' rather than 'proof' because one genuine defect (Linux marker finding never reaches the gate) is pinned by the unedited test-suite and recorded as a known finding.",
    "Trusted: go/ssa + VTA call graph soundness for this module (no reflect/unsafe/cgo/linkname, asserted), the ~20 allow-listed commands are read-only, the predicates inside the checks are the right ones.",
    "DESIGN.md section 4 C06"),
  "C11": ("proof",
@@ -44,7 +44,7 @@ CLAIMS = {
    "DESIGN.md section 4 C16, E3"),
  "C19": ("other",
    "structural rules (ordering, who-may-write, call context, recognised arithmetic idiom) on bash's own parse (`declare -f` dump) of bin/newpolicy.sh and the sibling shell scripts; nothing is executed",
-   "Necessary structure of the property decided on every run: the lock descriptor is opened and flock'ed (exclusive, non-blocking) before anything else, `main` is the only top-level command that can touch the database (traps and pure builtins aside), a trap for a real signal ignores it or ends the run, and the lock descriptor is never unlocked, closed or re-opened afterwards; the POLICY number is committed and pushed before the directory is renamed; `current` is written only in handle_success, which is called only on the success branch of the compiler invocation; the rename of `next` precedes the link switch and the link targets $POLICY (rm + ln -s, or the atomic ln -sfn tmp + mv -T); the next number is max(POLICY file, link)+1. It does not decide the semantic outcome at each kill point, flock semantics or the arithmetic on strings read at run time.",
+   "Necessary structure of the property decided on every run: the lock descriptor is opened and flock'ed (exclusive, non-blocking) before anything else, `main` is the only top-level command that can touch the database (traps and pure builtins aside), a trap for a real signal ignores it or ends the run, and the lock descriptor is never unlocked, closed or re-opened afterwards; the POLICY number is committed and pushed before the directory is renamed; no script under bin/ can remove the lock file (one genuine defect found by this rule, delete-old-policies unlinking an old but held LOCK, was repaired: fix 7b38b9c); `current` is written only in handle_success, which is called only on the success branch of the compiler invocation; the rename of `next` precedes the link switch and the link targets $POLICY (rm + ln -s, or the atomic ln -sfn tmp + mv -T); the next number is max(POLICY file, link)+1. It does not decide the semantic outcome at each kill point, flock semantics or the arithmetic on strings read at run time.",
    "Trusted: bash's parser/pretty-printer; documented semantics of rm/ln/mv/flock. Non-shell scripts under bin/ are listed as not analysed.",
    "DESIGN.md section 4 C19, E8"),
  "C13": ("other",
@@ -99,7 +99,7 @@ CLAIMS = {
    "DESIGN.md section 4 C18"),
  "C17": ("other",
    "inter-procedural, label-aware taint analysis on go/ssa with label-polymorphic summaries (parameter->result/sink/field), field-based heap, flow-sensitive mutable containers, URL->error model for net/http, masking regexps as sanitisers",
-   "Decides on every run that no password, API key or session token flows from its sources to any log/history/status/stdout/stderr sink on any path through the module, including failure paths where a transport error embeds the request URL and a module RoundTripper that sees the whole request; sanitisers are recognised by their pattern and replacement. 'other' rather than 'proof' because one genuine leak (API key in the error of httpPrefixGetLog) is pinned by the unedited test-suite and recorded as a known finding; any other (label, origin, sink) triple is reported.",
+   "Decides on every run that no password, API key or session token flows from its sources to any log/history/status/stdout/stderr sink on any path through the module, including failure paths where a transport error embeds the request URL and a module RoundTripper that sees the whole request; sanitisers are recognised by their pattern and replacement. The libraries that carry the secrets are never switched to tracing (goexpect Verbose/Tee, httputil dumps), and every place that types a password into a console session lies at an audited site whose conditions say that the device asked for one (one genuine leak found this way, the enable dialogue, was repaired: fix 042d3ca). 'other' rather than 'proof' because one genuine leak (API key in the error of httpPrefixGetLog) is pinned by the unedited test-suite and recorded as a known finding; any other (label, origin, sink) triple is reported.",
    "Trusted: go/ssa, call graph; library functions propagate taint from arguments to results and do not log by themselves; *url.Error contains URL and method only. Not decided: a device echoing a secret back.",
    "DESIGN.md section 4 C17, E4"),
  "C20": ("other",
